@@ -50,6 +50,20 @@ def gen():
                       let d = xd.abs().max(360.0) * {SLACK[F]};
                       assert!((xd - 360.0 * k - nd).abs() <= d);
                       """, fns + [f"palette::{H}::{call}"], bound, thorough=th)
+        o.harness(f"c11_{F}_signed_congruent_to_stored_precision",
+                  f"signed normal form of a {F} angle is congruent to the stored angle modulo 360 to within the rounding error OF THE STORED "
+                  f"ANGLE: some integer k has |n - (x - 360k)| <= 2 ulp(x) - in particular an angle already in (-180, 180) keeps its "
+                  f"precision however small it is (no detour through a representation whose grid is that of 360)",
+                  f"""
+                  let x: {F} = kani::any();
+                  kani::assume(x.abs() <= {LIM});
+                  kani::cover!(true);
+                  let n = {H}::new(x).into_degrees();
+                  let (xd, nd) = (x as f64, n as f64);
+                  let k = ((xd - nd) / 360.0).round();
+                  let d = xd.abs() * {SLACK[F]};
+                  assert!((xd - 360.0 * k - nd).abs() <= d);
+                  """, fns_s + [f"palette::{H}::into_degrees"], bound, thorough=th)
         for k in (1, -1, 2, -3, 100, -100):
             kn = f"p{k}" if k > 0 else f"m{-k}"
             o.harness(f"c11_{F}_eq_turns_{kn}",
